@@ -393,6 +393,9 @@ def gen_static(g, depth, ptypes=None, out=None, budget=None, kw_ok=False, ret_fr
     # visit order must not coincide with alphabetical order: JAX rebuilds dicts
     # (StaticTrace.subtraces) with sorted keys at every pytree boundary
     letters = rng.sample("abcdxyzw", 8)
+    if getattr(g, "letters", None):
+        letters = g.letters
+        g.letters = None  # only the branch's own top-level function shares names
     group = g.fresh("g")
     pending = None  # (switch node, statement index of the choice that selects its branch)
     cs = P.get("choice_switch", 0.0)
@@ -445,6 +448,9 @@ def gen_static(g, depth, ptypes=None, out=None, budget=None, kw_ok=False, ret_fr
             st["addr"] = [name]
         elif style == "tuple":
             st["addr"] = [group, name]
+        elif style == "deep":
+            # three components; call sites share one- and two-component prefixes
+            st["addr"] = [group, "%ss%d" % (group, j % 2), name]
         else:  # mixed
             st["addr"] = [name] if j % 2 == 0 else [group, name]
         stmts.append(st)
@@ -506,9 +512,10 @@ def gen_any(g, depth, budget=None, kinds=None):
 
     if k == "static":
         return gen_static(g, d1, budget=budget, kw_ok=False)
+    vsi = P.get("vec_static_inner", 0.0)
     if k == "vmap":
         per = max(1, budget // max(n, 1))
-        inner = sub(per)
+        inner = gen_static(g, d1, budget=per) if (vsi > 0 and rng.random() < vsi) else sub(per)
         ins, _ = sig(inner)
         if not any(liftable(t) for t in ins):
             # give it something to map over
@@ -530,7 +537,8 @@ def gen_any(g, depth, budget=None, kinds=None):
         return {"k": "vmap", "inner": inner, "axes": axes, "n": n}
     if k == "repeat":
         per = max(1, budget // max(n, 1))
-        return {"k": "repeat", "inner": sub(per), "n": max(n, 1)}
+        inner = gen_static(g, d1, budget=per) if (vsi > 0 and rng.random() < vsi) else sub(per)
+        return {"k": "repeat", "inner": inner, "n": max(n, 1)}
     if k in SCAN_LIKE:
         n = max(n, 1)
         per = max(1, budget // n)
@@ -551,8 +559,22 @@ def gen_any(g, depth, budget=None, kinds=None):
         nb = rng.choice([2, 2, 3])
         want = rand_out(g)
         brs = []
+        sn = P.get("shared_names", 0.0)
+        shared = sn > 0 and rng.random() < sn
+        uid0, letters0 = g.uid, rng.sample("abcdxyzw", 8) if shared else None
+        uid_max = uid0
         for _ in range(nb):
+            if shared:
+                # branches draw their call-site names from the same sequence: the
+                # same group / nested-call address appears in several branches,
+                # with different addresses beneath it
+                g.uid = uid0
+                g.letters = letters0
             b = sub()
+            if shared:
+                g.letters = None
+                uid_max = max(uid_max, g.uid)
+                g.uid = uid_max
             w = want
             if k == "switch" and want[0] == "F" and rng.random() < P["hetero_switch"]:
                 w = rng.choice([["B"], ["I", 3], want])
